@@ -110,20 +110,20 @@ NOT_YET = "check not built yet in this session (work in progress; see DESIGN.md 
 
 # families added after the selftest and the three rounds of independently seeded changes (DESIGN.md §0.6, §0.7)
 EXTRA = {
- "C01": "every like pattern <=5 components over {*,a,b} x strings <=7 and over {*,a,é,😀} x strings <=5; sets/records of 0..257 members; 18 more ip spellings; mid-range and extreme long arithmetic",
- "C02": "every list of 1..3 when/unless clauses over 6 bodies (alone and against an opponent); 0..33 policies of each class; the batch seam compares the error set too; one policy set answering a second request; single-use and order-shifting PolicyIterators; the streaming Decoder as a seam",
+ "C01": "every like pattern <=5 components over {*,a,b} x strings <=7 and over {*,a,é,😀} x strings <=5; sets/records of 0..257 members; 18 more ip spellings; mid-range and extreme long arithmetic; one compiled policy set answering every environment forwards and backwards (state kept between requests)",
+ "C02": "every list of 1..3 when/unless clauses over 6 bodies (alone and against an opponent); 0..33 policies of each class; the batch seam compares the error set too; one policy set answering a second request; single-use and order-shifting PolicyIterators; the streaming Decoder as a seam; container histories (every id replaced after the set answered a request, add+remove of further policies)",
  "C03": "node ids shared across entity types; parametric larger shapes (chains <=12 with every back edge and an absent node, fans <=20, layered diamonds <=6); huge hierarchies (chains, cycles, fans, ladders of 255..8193 nodes, thorough 100000) against breadth-first search; degenerate uids (zero uid, empty type / id, NUL id) at every position of a chain",
  "C04": "lists of 1..3 when/unless clauses; set/record literals of 1..200 operands with one non-constant operand; arithmetic shapes of 2..3 operators with request-dependent extreme operands; every extension function with 0..3 arguments under six consumers",
  "C05": "19 policies incl. if-then-else / || / has / literals from request parts; templates with 2..5 variables, value lists of 9..40, three levels of nesting; every set-of-entities operator (in, is-in, containsAny/All, ==, isEmpty) on the context set that holds the variable; an undecided, possibly failing if-condition over decided branches",
- "C06": "26 partial environments (unknowns nested three levels; unknown + ignored parts together); lists of 1..3 clauses; record / set literals with a sibling member that may fail; an operand that fails whenever the context is known (short-circuit soundness); undecided conditions over decided branches",
+ "C06": "26 partial environments (unknowns nested three levels; unknown + ignored parts together); lists of 1..3 clauses; record / set literals with a sibling member that may fail; an operand that fails whenever the context is known (short-circuit soundness); undecided conditions over decided branches; if with 14 boolean-typed guards that fail under some completion over 10^2 branches folding to constants",
  "C07": "six layouts incl. empty and adjacent line comments; duplicate keys spelled through escapes; zero-padded integer spellings; every nesting construct at depths 9..130 (thorough 300); used receivers and the other text entry points; padding slid across the buffer edges; decode inputs overwritten after the call",
  "C08": "arithmetic trees of 2..3 operators over extreme longs; literals of 1000..9000 characters; every Unicode scalar in the quick tier; every nesting construct at depths 9..130 incl. prefix-operator chains in 12 mixtures of - and !; returned bytes owned by the caller; an Encoder over a writer that fails during one call",
- "C09": "hand-written JSON like-patterns the encoder never writes; decoding into populated cedar.Policy / ast.Policy receivers; every policy JSON in six other spellings (indent, member order, escaped names, escaped solidus, all-\\u strings); policy sets of 0..2049 policies (thorough 8193); deep chains; encodings handed out earlier unchanged by later calls; records that look like implicit entity / extension spellings as value literals; decode inputs overwritten after the call",
+ "C09": "hand-written JSON like-patterns the encoder never writes; decoding into populated cedar.Policy / ast.Policy receivers; every policy JSON in six other spellings (indent, member order, escaped names, escaped solidus, all-\\u strings); policy sets of 0..2049 policies (thorough 8193); deep chains; encodings handed out earlier unchanged by later calls; records that look like implicit entity / extension spellings as value literals; decode inputs overwritten after the call; a like without a pattern member and a programmatic pattern without components",
  "C10": "every Unicode scalar through decoders then all encoders; stall detector (a non-returning case is confirmed in fresh subprocesses and reported as hang / stack-overflow); amplification sweep: ten work-amplifying shapes (like patterns with n wildcards over 2n near misses, wide sets/records, hierarchy ladders) at n=4..64 (thorough 256) with a 30 s stall threshold; nine extension-literal templates with every field and pair of fields at, below and above its range through every decoder; escaped library panics are violations",
  "C11": "containers of 0..257 members in three insertion orders; internal/mapset and EntityUIDSet against a Go-map model; degenerate initial states (empty, nil, single) of the immutability BFS; decoding into used receivers; a by-value copy of a decoded value is unchanged by a later decode into the variable; returned bytes owned by the caller; every value decoder reads a private buffer that is overwritten afterwards",
  "C12": "every year in [-820,820] (thorough +-10500, every zone offset to the minute) x month ends; durations with every unit at its own maximum +-1; all scalars through String/Set/Record renderings; zero-padded duration quantities; decimal spellings; Go conversions (Duration.Duration, Datetime.Time) at the extremes; IPv4-mapped / compatible / NAT64 and 18 more ip spellings; every check runs in a non-UTC local time zone",
  "C13": "extension- and entity-typed tags of attribute-less entities; decoding into used receivers; member names of the escapes spelled with \\uXXXX; every value / entity JSON and every typed extension form in six other spellings; entities of 0..129 attributes, tags, parents; calendar / unit grids through JSON; earlier copies unchanged by a later decode; decode inputs overwritten after the call; receivers on which a decode has just failed",
- "C14": "workloads: multi-parent hierarchies, evaluator errors over sets, batch with colliding set members; names that differ only in letter case in every keyed collection (policies, entities, schema); batch request error messages; failed decodes leave the same state on every run",
+ "C14": "workloads: multi-parent hierarchies, evaluator errors over sets, batch with colliding set members; names that differ only in letter case in every keyed collection (policies, entities, schema); batch request error messages; failed decodes leave the same state on every run; every ordered pair of 12 encoders with the first result held uncopied across the later calls",
  "C15": "entity-type unions; guards across when/unless clauses; action-in guards over sets mixing literals and non-literals; every &&/|| tree and if-then-else of up to four has-guards over three optional attributes; capability keys that collide textually; entity-in guards; sets of entities (empty and non-empty) in the stores; == / != guards typed as singleton booleans over 15 x 15 operand pairs",
  "C16": "common types across two namespaces; C15's whole policy space + 3-element sets over union types through Validator.Policy (totality); stall detector; common types over {top, A, A::B} with qualified references; bodies with two references in mixed spellings (parallel edges in the cycle check); attribute names that are empty / dotted / variable-like and an entity type Action with attributes; unions of entity types whose tags are records, entities and sets",
  "C17": "bare Action:: parents from inside a namespace; declared-but-empty namespaces; attribute types nested 20 deep; decoding into a populated Schema; used receivers in two prior-use states (decoded; every accessor called, resolved last); every schema JSON in six other spellings; schemas of 0..130 declarations; returned bytes owned; decode inputs overwritten after the call; receivers on which a decode has just failed",
